@@ -180,6 +180,30 @@ fn run_bls(ctx: &mut Ctx) {
         ctx.case("bls-ate", nontrivial, &line, &fmt_el(&bls12_out(&midnight_curves::bls12_381::Fp12::from(e))));
         ctx.count(&format!("bls-ate:{}", if nontrivial { "points" } else { "identity" }));
     }
+    // The aggregate-verification context of bls_pairing.rs (blst_pairing_*): the same pairing through a
+    // third entry point. pk = sk·G1, H = hash_to_curve(msg), sig = sk·H: e(pk, H) = e(G1, sig).
+    let dst: &[u8] = b"MIDNIGHT-VERIF-C13-BLS12381G2_XMD:SHA-256_SSWU_RO_";
+    for i in 0..(if ctx.quick() { 6 } else { 24 }) {
+        let sk = scalar_class(&mut rng, &r, if i == 0 { 1 } else { 9 });
+        let msg: Vec<u8> = (0..(i * 7 % 40)).map(|_| rng.gen::<u8>()).collect();
+        let pk = (G1Projective::generator() * mzkh::fe_from_big::<midnight_curves::Fq>(&sk)).to_affine();
+        let h = G2Projective::hash_to_curve(&msg, dst, &[]);
+        let sig = (h * mzkh::fe_from_big::<midnight_curves::Fq>(&sk)).to_affine();
+        let bad_sig = (h * mzkh::fe_from_big::<midnight_curves::Fq>(&sk) + G2Projective::generator()).to_affine();
+        let verify = |s: &G2Affine| -> Result<bool, String> {
+            let mut pc = midnight_curves::PairingG1G2::new(true, dst);
+            pc.aggregate(&pk, Some(s), &msg, &[]).map_err(|e| format!("{e:?}"))?;
+            pc.commit();
+            Ok(pc.finalverify(None))
+        };
+        let direct = midnight_curves::bls12_381::pairing(&pk, &h.to_affine()) == midnight_curves::bls12_381::pairing(&G1Affine::generator(), &sig);
+        let direct_bad = midnight_curves::bls12_381::pairing(&pk, &h.to_affine()) == midnight_curves::bls12_381::pairing(&G1Affine::generator(), &bad_sig);
+        ctx.count("bls-aggregate-context");
+        if verify(&sig) != Ok(true) || verify(&bad_sig) != Ok(false) || !direct || direct_bad {
+            ctx.oracle_fail("bls:aggregate-context", "PairingG1G2 aggregate/commit/finalverify disagrees with the pairing equation e(pk, H(m)) = e(G1, sig)",
+                json!({"sk": mzkh::big_hex(&sk), "msg_len": msg.len(), "good": format!("{:?}", verify(&sig)), "bad": format!("{:?}", verify(&bad_sig)), "direct": direct, "direct_bad": direct_bad}));
+        }
+    }
     // Gt::generator() is e(G1, G2)
     let g = Gt::generator();
     ctx.case("gtgen", true, "gtgen bls", &fmt_el(&bls12_out(&midnight_curves::bls12_381::Fp12::from(g))));
@@ -266,8 +290,12 @@ fn run_dual(ctx: &mut Ctx) {
 }
 
 pub fn run(ctx: &mut Ctx) {
-    run_bn(ctx);
-    run_bls(ctx);
-    run_dual(ctx);
+    for (name, f) in [("bn", run_bn as fn(&mut Ctx)), ("bls", run_bls), ("dual", run_dual)] {
+        let res = mzkh::catch(std::panic::AssertUnwindSafe(|| f(&mut *ctx)));
+        if let Err(msg) = res {
+            ctx.oracle_fail(&format!("{name}:panic:direct"), "a Miller loop / final exponentiation / pairing check panicked on valid points",
+                json!({"part": name, "panic": msg}));
+        }
+    }
     let _ = bn12_out;
 }
